@@ -39,6 +39,20 @@ ASM_LINES = ['shl eax, cl', 'in al, dx', 'shld eax, ebx, cl', 'mov eax, {N}', 'a
              'lea ecx, [eax+eax*4+{N}]', 'test BYTE PTR [ebp-{N}], {N}', 'shl eax, {N}', 'jmp {N}', 'enter {N}, {N}', 'movq mm1, QWORD PTR [eax+{N}]',
              'fld DWORD PTR [esp+{N}]', 'in al, {N}', 'ret {N}']
 
+# history pairs: a first line that uses an operand text never seen before in the process, then another instruction with the same
+# operand text; the result must be the one the second line gives on an operand text of its own (same symbolic number, other numeral)
+HIST_FIRST = ['push {O}', 'pop {O}', 'lea eax, {O}', 'prefetchnta {O}', 'prefetcht0 {O}', 'prefetchw {O}', 'cmpxchg8b {O}', 'pinsrw xmm1, {O}, 3', 'shufps xmm1, {O}, 3',
+              'pextrw {O}, xmm1, 3', 'mov eax, {O}', 'mov {O}, cl', 'movzx eax, {O}', 'movsx eax, {O}', 'inc {O}', 'not {O}', 'mul {O}', 'fld {O}', 'fild {O}', 'fstp {O}', 'call {O}',
+              'jmp {O}', 'bt {O}, 3', 'shl {O}, 1', 'shl {O}, cl', 'imul eax, {O}, 3', 'movq mm0, {O}', 'movd mm1, {O}', 'movaps xmm0, {O}', 'movsd xmm0, {O}', 'cvtsi2sd xmm0, {O}',
+              'cmpxchg {O}, ecx', 'xchg {O}, ecx', 'xadd {O}, cx', 'test {O}, 1', 'lgdt {O}', 'sldt {O}', 'bound eax, {O}', 'lds eax, {O}', 'invlpg {O}', 'clflush {O}', 'fxsave {O}',
+              'ldmxcsr {O}', 'mov es, {O}', 'setz {O}', 'cmova eax, {O}', 'fnstcw {O}', 'fnstsw {O}', 'nop {O}']
+HIST_OPS = {'BYTE PTR [ebx+{N}]': ['inc {O}', 'mov al, {O}', 'mov {O}, 1'],
+            'WORD PTR [ebx+{N}]': ['inc {O}', 'mov ax, {O}', 'add {O}, 1', 'push {O}'],
+            'WORD PTR [{N}]': ['mov ax, {O}', 'cmp {O}, dx'],
+            'DWORD PTR [ebx+{N}]': ['inc {O}', 'mov eax, {O}', 'push {O}', 'call {O}'],
+            'QWORD PTR [ebx+{N}]': ['fld {O}', 'movq mm0, {O}'],
+            '[ebx+esi*2+{N}]': ['mov eax, {O}', 'call {O}', 'lea eax, {O}']}
+
 SEM = EH = X = M = None
 
 
@@ -458,6 +472,86 @@ def run_asm(job, res):
     res['nontrivial'] += 1
 
 
+def _outcome(fn_):
+    try:
+        r = fn_()
+    except PathAbort:
+        raise
+    except Exception as ex:
+        return ('exc', type(ex).__name__)
+    return ('ok', [AD.as_sbytes(b) for b in r]) if isinstance(r, list) and not (r and isinstance(r[0], list)) else ('other', repr(type(r)))
+
+
+def _same_outcome(eng, r1, r2, what):
+    vals = eng.model_inputs(eng.witness())
+    if r1[0] != r2[0]:
+        return ('CEX', what + '-outcome', 'ends differently (%s, then %s)' % (r1[0], r2[0]), vals)
+    if r1[0] != 'ok':
+        return ('OK',) if r1 == r2 else ('CEX', what + '-outcome', 'raises %s instead of %s' % (r2[1], r1[1]), vals)
+    if len(r1[1]) != len(r2[1]):
+        return ('CEX', what + '-candidates', '%d candidates instead of %d' % (len(r2[1]), len(r1[1])), vals)
+    conds = []
+    for x, y in zip(r1[1], r2[1]):
+        if len(x.items) != len(y.items):
+            return ('CEX', what + '-candidates', 'candidates of other lengths', vals)
+        for p, q in zip(x.items, y.items):
+            if isinstance(p, int) and isinstance(q, int):
+                if p != q:
+                    return ('CEX', what + '-candidates', 'other bytes', vals)
+            else:
+                conds.append(z3.Extract(7, 0, core.term_of(p)) == z3.Extract(7, 0, core.term_of(q)))
+    if conds:
+        st, m = eng.find(z3.Not(z3.And(*conds)))
+        if st == 'sat':
+            return ('CEX', what + '-candidates', 'other bytes', eng.model_inputs(m))
+        if st != 'unsat':
+            return ('ABORT', 'unknown')
+    return ('OK',)
+
+
+def run_hist(job, res):
+    _, tier, pairs = job
+    for first, second, optext in pairs:
+        res['programs'] = res.get('programs', 0) + 1
+        l1, l2 = first.replace('{O}', optext).replace('{N}', '{0}'), second.replace('{O}', optext).replace('{N}', '{0}')
+        eng = Engine(width=72, timeout_ms=10000, max_paths=100, max_seconds=60)
+
+        def fn(eng):
+            n = SInt.var('n0', 0, (1 << 32) - 1)
+            pa, pb = AD.fresh_placeholders(1), AD.fresh_placeholders(1)
+            ref = _outcome(lambda: AD.asm(l2, [n], ph=pa))      # the second line on an operand text of its own
+            _outcome(lambda: AD.asm(l1, [n], ph=pb))            # the first line introduces the operand text ...
+            r = _outcome(lambda: AD.asm(l2, [n], ph=pb))        # ... the second line meets it again
+            return _same_outcome(eng, ref, r, 'history:asm')
+        rs = eng.explore(fn)
+        res['paths'] += eng.stats['paths']
+        res['queries'] += eng.stats['queries']
+        res['solver_s'] += eng.stats['solver_s']
+        name = '%s ; %s' % (l1, l2)
+        for u in eng.unexplored:
+            res['inconclusive'].append('hist %s: %s' % (name, u))
+        ok = 0
+        for r in rs:
+            if r[0] == 'OK':
+                ok += 1
+                res['obligations'] += 1
+                res['proved'] += 1
+            elif r[0] == 'CEX':
+                res['obligations'] += 1
+                res['candidates'].append({'key': 'asm:%s:%s after %s' % (r[1], second.replace('{O}', optext), first.split()[0]),
+                                          'desc': 'asm(%r) after asm(%r): %s with %s' % (l2, l1, r[2], r[3]),
+                                          'data': {'kind': 'hist', 'what': r[1], 'first': l1, 'second': l2, 'vals': [r[3].get('n0', 0)]}})
+            else:
+                res['inconclusive'].append('hist %s: %s' % (name, r[1] if len(r) > 1 else r[0]))
+        if ok:
+            res['nontrivial'] += 1
+
+
+def hist_jobs(tier):
+    pairs = [(f, s_, o) for o, seconds in HIST_OPS.items() for s_ in seconds for f in HIST_FIRST if f.split()[0] != s_.split()[0] or f != s_]
+    return [('hist12', tier, pairs[i:i + 40]) for i in range(0, len(pairs), 40)]
+
+
 def jobs(tier, seed):
     import random
     if E.A is None:
@@ -480,12 +574,15 @@ def jobs(tier, seed):
         ej = E.make_jobs(tier, seed, prefix_sets=[(), (0x66,), (0x67,), (0xF3,), (0xF2,), (0x2E,), (0x64,)], sib='min', per_signature=False)
     out = [('dis12', j, tier) for j in ej]
     out.append(('asm12', tier, list(ASM_LINES)))
+    out += hist_jobs(tier)
     return out
 
 
 def run(job, res):
     if job[0] == 'dis12':
         run_dec(job, res)
+    elif job[0] == 'hist12':
+        run_hist(job, res)
     else:
         run_asm(job, res)
 
@@ -537,6 +634,17 @@ if D['kind'] == 'dis':
         fp1 = c12d.fingerprint_tables(A, R, SEM)
         df = c12d.fp_diff(fp0, fp1)
         if df: bad = True; print(bytes(bs).hex(), str(i1).strip(), ': shared tables changed:', df); break
+elif D['kind'] == 'hist':
+    import subprocess, json
+    l1, l2 = D['first'].format(*D['vals']), D['second'].format(*D['vals'])
+    prog = ("import sys, json; import miasmx.arch.ia32_arch as A\n"
+            "def once(l):\n    try: return [bytes(x).hex() for x in A.x86mnemo.asm(l)]\n    except Exception as ex: return 'raises ' + type(ex).__name__\n"
+            "ls = json.loads(sys.argv[1]); r = None\nfor l in ls: r = once(l)\nprint(json.dumps(r))")
+    def fresh(ls):
+        return json.loads(subprocess.run([sys.executable, '-c', prog, json.dumps(ls)], capture_output=True, text=True, timeout=120).stdout.strip().splitlines()[-1])
+    ref, r = fresh([l2]), fresh([l1, l2])
+    print(repr(l2), 'alone (fresh process):', ref); print(repr(l2), 'after', repr(l1), '(fresh process):', r)
+    bad = ref != r
 else:
     fp0 = c12d.fingerprint_tables(A, R, SEM)
     ls = D.get('lines') or [D['tmpl'].format(*D['vals'])]
